@@ -40,7 +40,10 @@ Definition p_op : parser op :=
    when the call is made and each on_open_substream / on_close_substream only touches its own peer
    (C11_isolation), so the command is the sequence of the single-peer commands; events and calls of the one
    step are printed sorted by peer. *)
-Inductive gop := GOp (o : op) | GSleepAll | GBatch (open : bool) (l : list peer).
+Inductive gop := GOp (o : op) | GSleepAll | GBatch (open : bool) (l : list peer)
+                | GSleepLong.   (* kind 28: the harness really sleeps > 10 s: every substream the HandshakeService
+                                   holds runs into NEGOTIATION_TIMEOUT (NegotiationError), then every 5 s timer that
+                                   was armed before the sleep fires; events and calls of the step are printed by peer *)
 
 Fixpoint digits4 (fuel : nat) (a : N) : list peer :=
   match fuel with
@@ -53,10 +56,11 @@ Definition p_gop : parser gop :=
            | 19 :: _ :: _ :: rest => Some (GSleepAll, rest)
            | 26 :: _ :: a :: rest => Some (GBatch true (digits4 3 a), rest)
            | 27 :: _ :: a :: rest => Some (GBatch false (digits4 3 a), rest)
+           | 28 :: _ :: _ :: rest => Some (GSleepLong, rest)
            | _ => match p_op l with Some (o, rest) => Some (GOp o, rest) | None => None end
            end.
 
-Definition is_sleep (g : gop) : bool := match g with GSleepAll => true | _ => false end.
+Definition is_sleep (g : gop) : bool := match g with GSleepAll | GSleepLong => true | _ => false end.
 Definition is_timer (g : gop) : bool := match g with GOp (Timer _) => true | _ => false end.
 
 Definition decode_case (l : list N) : option (cfg * list gop) :=
@@ -155,8 +159,36 @@ Definition ev_peer0 (e : uev) : peer :=
 Definition call_peer0 (c : call) : peer :=
   match c with CDial p | COpen p _ | CForce p | CRet p _ | CWire p _ _ => p end.
 
+(* the 10 s negotiation timeout of every substream in the HandshakeService: one NegotiationError per peer
+   (the handler drops both substreams of the peer) *)
+Fixpoint hs_timeouts (c : cfg) (s : st) (l : list peer) : res :=
+  match l with
+  | [] => ok s
+  | p :: t =>
+      match (if hsI s p then step c s (HsIn p false) else if hsO s p then step c s (HsOut p false) else ok s) with
+      | Some (s1, e1, c1) =>
+          match hs_timeouts c s1 t with
+          | Some (s2, e2, c2) => Some (s2, e1 ++ e2, c1 ++ c2)
+          | None => None
+          end
+      | None => None
+      end
+  end.
+
+Definition by_peer {A} (key : A -> peer) (l : list A) : list A :=
+  flat_map (fun p => filter (fun x => key x =? p) l) peers_l.
+
 Definition gstep (c : cfg) (s : st) (g : gop) : res :=
   match g with
+  | GSleepLong =>
+      match hs_timeouts c s peers_l with
+      | Some (s1, e1, c1) =>
+          match fire_all c s1 (timers s) with
+          | Some (s2, e2, c2) => Some (s2, by_peer ev_peer0 (e1 ++ e2), by_peer call_peer0 (c1 ++ c2))
+          | None => None
+          end
+      | None => None
+      end
   | GOp o => step c s o
   | GSleepAll => fire_all c s (timers s)
   | GBatch open l =>
@@ -535,7 +567,7 @@ Definition check_batch (m : omem) (g : gop) (x : sobs) : omem * N :=
 Fixpoint check_steps (c : cfg) (m : omem) (ops : list gop) (tr : list sobs) : N :=
   match ops, tr with
   | g :: ops', x :: tr' =>
-      let '(m', f) := match g with GOp o => check_step c m o x | GSleepAll | GBatch _ _ => check_batch m g x end in
+      let '(m', f) := match g with GOp o => check_step c m o x | GSleepAll | GSleepLong | GBatch _ _ => check_batch m g x end in
       N.lor f (check_steps c m' ops' tr')
   | _, _ => 0
   end.
